@@ -8,7 +8,25 @@ export VERIF_WORK=${VERIF_WORK:-/var/tmp/verif-work}
 mkdir -p "$VERIF_WORK" bin evidence replays
 id=$1; tier=${2:-quick}
 cp /repo/go.sum go.sum 2>/dev/null
-if ! go build -tags verif -o bin/vb.$$ ./cmd/verifbin 2>"$VERIF_WORK/build.$id.log"; then
-  echo "HARNESS-ERROR: build failed (see $VERIF_WORK/build.$id.log)"; tail -30 "$VERIF_WORK/build.$id.log"; exit 2
+tags=verif; overlay=(); ov=
+if [ "$id" = "C34" ]; then
+  # C34: the mutexes of the evidence/session cache and of the servicer node become scheduling points. A shim
+  # replaces the "sync" import of the CURRENT cache.go / pocketNode.go through a build overlay; /repo is untouched.
+  ov="$VERIF_WORK/ovl.$$"; mkdir -p "$ov"
+  repl='{"Replace":{'
+  for f in cache.go pocketNode.go; do
+    sed 's#^\t"sync"$#\tsync "github.com/pokt-network/pocket-core/x/pocketcore/types/vsync"#' "/repo/x/pocketcore/types/$f" > "$ov/$f"
+    if ! grep -q 'types/vsync"' "$ov/$f"; then
+      echo "HARNESS-ERROR: cannot hook the sync import of x/pocketcore/types/$f"; rm -rf "$ov"; exit 2
+    fi
+    repl="$repl\"/repo/x/pocketcore/types/$f\":\"$ov/$f\","
+  done
+  cp sched/vsync.go.src "$ov/vsync.go"
+  printf '%s"/repo/x/pocketcore/types/vsync/vsync.go":"%s/vsync.go"}}\n' "$repl" "$ov" > "$ov/overlay.json"
+  tags="verif vsched"; overlay=(-overlay "$ov/overlay.json")
 fi
-./bin/vb.$$ check "$id" --tier "$tier"; rc=$?; rm -f bin/vb.$$; exit $rc
+if ! go build -tags "$tags" "${overlay[@]}" -o bin/vb.$$ ./cmd/verifbin 2>"$VERIF_WORK/build.$id.log"; then
+  echo "HARNESS-ERROR: build failed (see $VERIF_WORK/build.$id.log)"; tail -30 "$VERIF_WORK/build.$id.log"
+  [ -n "$ov" ] && rm -rf "$ov"; exit 2
+fi
+./bin/vb.$$ check "$id" --tier "$tier"; rc=$?; rm -f bin/vb.$$; [ -n "$ov" ] && rm -rf "$ov"; exit $rc
